@@ -129,6 +129,10 @@ type Exec struct {
 	globalInitVal map[*Object]Value
 	constCache  map[*ssa.Const]Value
 	reqHyp      int
+	pureMemo    map[string]*pureEntry
+	selectReturn int // >0: keep only the n-th return of the function under contract (per-path postconditions)
+	numReturns   int
+	selectFn     *ssa.Function
 }
 
 type ioGhost struct {
@@ -237,6 +241,7 @@ func (x *Exec) run(fr *Frame, st *State, b *ssa.BasicBlock, stop *ssa.BasicBlock
 		if b == stop {
 			return st
 		}
+		curExec = x
 		if x.dryLoop != nil && b.Parent() == x.dryLoop.head.Parent() && !x.dryLoop.blocks[b] {
 			return nil
 		}
@@ -663,6 +668,9 @@ func (x *Exec) step(fr *Frame, ins ssa.Instruction) {
 	case *ssa.IndexAddr:
 		base := x.get(i.X)
 		idx := x.index64(i.Index)
+		if _, isC := base.(*ChoiceV); isC {
+			x.obligeBounds(idx, sliceLen(base), i.Pos(), fr)
+		}
 		switch bv := base.(type) {
 		case SliceV:
 			x.obligeBounds(idx, bv.Len, i.Pos(), fr)
@@ -676,8 +684,8 @@ func (x *Exec) step(fr *Frame, ins ssa.Instruction) {
 			n := i.X.Type().Underlying().(*types.Pointer).Elem().Underlying().(*types.Array).Len()
 			x.obligeBounds(idx, bv64(n), i.Pos(), fr)
 			st.regs[i] = x.extendPtr(bv, PathElem{Field: -1, Idx: idx})
-		case ChoiceV:
-			unsup("IndexAddr on choice")
+		case *ChoiceV:
+			st.regs[i] = x.indexAddrChoice(bv, idx, i, fr)
 		default:
 			unsup("IndexAddr on %T", base)
 		}
@@ -736,8 +744,8 @@ func (x *Exec) extendPtr(p Value, e PathElem) Value {
 		copy(np, pv.Path)
 		np[len(pv.Path)] = e
 		return PtrV{Obj: pv.Obj, Path: np, Nil: pv.Nil}
-	case ChoiceV:
-		return ChoiceV{C: pv.C, A: x.extendPtr(pv.A, e), B: x.extendPtr(pv.B, e)}
+	case *ChoiceV:
+		return &ChoiceV{C: pv.C, A: x.extendPtr(pv.A, e), B: x.extendPtr(pv.B, e)}
 	case UnknownV:
 		return pv
 	}
@@ -780,7 +788,7 @@ func (x *Exec) unop(i *ssa.UnOp, fr *Frame) Value {
 	switch i.Op {
 	case token.MUL: // load
 		x.checkNonNil(v, i.Pos(), fr)
-		return x.load(v)
+		return x.loadTyped(v, i.Type())
 	case token.NOT:
 		return Scalar{Not(term(v))}
 	case token.SUB:
@@ -1169,7 +1177,13 @@ func (x *Exec) concatBytes(a, b SliceV, str bool) SliceV {
 func isZeroOff(s SliceV) bool { return true }
 
 func (x *Exec) sliceOp(i *ssa.Slice, fr *Frame) Value {
-	base := x.get(i.X)
+	return x.sliceVal(x.get(i.X), i, fr)
+}
+
+func (x *Exec) sliceVal(base Value, i *ssa.Slice, fr *Frame) Value {
+	if cv, ok := base.(*ChoiceV); ok {
+		return &ChoiceV{C: cv.C, A: x.sliceVal(cv.A, i, fr), B: x.sliceVal(cv.B, i, fr)}
+	}
 	var lo, hi, mx *Term
 	if i.Low != nil {
 		lo = x.index64(i.Low)
@@ -1343,6 +1357,8 @@ type LoopInfo struct {
 	head   *ssa.BasicBlock
 	blocks map[*ssa.BasicBlock]bool
 	key    string // loop variable name or ordinal
+	keys   []string
+	names  []string
 	ord    int
 }
 
@@ -1456,25 +1472,39 @@ func analyze(fn *ssa.Function) *FuncInfo {
 		li := fi.loops[h]
 		li.ord = i
 		li.key = fmt.Sprintf("%d", i)
-		// loop variable name from the first phi with a comment
+		// loop variable names: the phis of the head
 		for _, ins := range h.Instrs {
 			if ph, ok := ins.(*ssa.Phi); ok && ph.Comment != "" {
-				li.key = ph.Comment
-				break
+				li.names = append(li.names, ph.Comment)
 			}
 		}
 		fi.order = append(fi.order, li)
 	}
-	// disambiguate equal names: name#1, name#2 ... in block order
+	// every phi name of the head is a key; equal names across loops get #1, #2 ... in block order
 	cnt := map[string]int{}
 	for _, li := range fi.order {
-		cnt[li.key]++
+		for _, n := range li.names {
+			cnt[n]++
+		}
 	}
 	seen := map[string]int{}
 	for _, li := range fi.order {
-		if cnt[li.key] > 1 {
-			seen[li.key]++
-			li.key = fmt.Sprintf("%s#%d", li.key, seen[li.key])
+		for _, n := range li.names {
+			k := n
+			if cnt[n] > 1 {
+				seen[n]++
+				k = fmt.Sprintf("%s#%d", n, seen[n])
+			}
+			li.keys = append(li.keys, k)
+		}
+		if len(li.keys) > 0 {
+			li.key = li.keys[0]
+			for _, k := range li.keys {
+				if strings.HasPrefix(k, "i") || strings.HasPrefix(k, "j") {
+					li.key = k
+					break
+				}
+			}
 		}
 	}
 	return fi
@@ -1484,8 +1514,10 @@ func (fr *Frame) loopSpec(li *LoopInfo) *LoopSpec {
 	if fr.spec == nil {
 		return nil
 	}
-	if ls, ok := fr.spec.Loops[li.key]; ok {
-		return ls
+	for _, k := range li.keys {
+		if ls, ok := fr.spec.Loops[k]; ok {
+			return ls
+		}
 	}
 	if ls, ok := fr.spec.Loops[fmt.Sprintf("%d", li.ord)]; ok {
 		return ls
@@ -1536,6 +1568,17 @@ func (x *Exec) callFunction(fn *ssa.Function, args []Value, bind []Value, ghost 
 	}
 	x.run(fr, st, fn.Blocks[0], nil)
 	// merge returns
+	if fn == x.selectFn && x.selectFn != nil && !ghost {
+		x.numReturns = len(fr.returns)
+		if x.selectReturn > 0 {
+			if x.selectReturn > len(fr.returns) {
+				x.st = nil
+				return nil
+			}
+			fr.returns = fr.returns[x.selectReturn-1 : x.selectReturn]
+		}
+		x.selectFn = nil
+	}
 	if len(fr.returns) == 0 {
 		x.st = nil
 		return nil
@@ -1669,7 +1712,7 @@ func (x *Exec) builtin(fr *Frame, name string, cc *ssa.CallCommon, args []Value,
 			return Scalar{bv64(int64(len(a.Keys)))}
 		case ArrayV:
 			return Scalar{bv64(int64(len(a.E)))}
-		case ChoiceV:
+		case *ChoiceV:
 			return Scalar{Ite(a.C, term(x.builtin(fr, name, cc, []Value{a.A}, pos)), term(x.builtin(fr, name, cc, []Value{a.B}, pos)))}
 		}
 		unsup("len of %T", args[0])
@@ -1822,4 +1865,48 @@ func describeValue(v Value) string {
 	}
 	s := fmt.Sprintf("%T", v)
 	return strings.TrimPrefix(s, "main.")
+}
+
+func (x *Exec) indexAddrChoice(v Value, idx *Term, i *ssa.IndexAddr, fr *Frame) Value {
+	switch bv := v.(type) {
+	case *ChoiceV:
+		return &ChoiceV{C: bv.C, A: x.indexAddrChoice(bv.A, idx, i, fr), B: x.indexAddrChoice(bv.B, idx, i, fr)}
+	case SliceV:
+		if bv.Obj == nil {
+			return PtrV{Nil: True()}
+		}
+		return PtrV{Obj: bv.Obj, Path: []PathElem{{Field: -1, Idx: BvAdd(bv.Off, idx)}}, Nil: False()}
+	}
+	unsup("IndexAddr on %T inside a choice", v)
+	return nil
+}
+
+// sliceLen returns the length of a slice value, distributing over choices.
+func sliceLen(v Value) *Term {
+	switch s := v.(type) {
+	case SliceV:
+		return s.Len
+	case *ChoiceV:
+		return Ite(s.C, sliceLen(s.A), sliceLen(s.B))
+	}
+	unsup("length of %T", v)
+	return nil
+}
+
+// loadTyped loads through p; loads through a definitely-nil pointer (whose
+// safety obligation has been emitted, or which sit under a guard in ghost
+// code) yield an arbitrary value of the type.
+func (x *Exec) loadTyped(p Value, t types.Type) Value {
+	switch pv := p.(type) {
+	case PtrV:
+		if pv.Obj == nil {
+			n := len(x.inputs)
+			v := x.freshValue("nil-deref", t, 1)
+			x.inputs = x.inputs[:n]
+			return v
+		}
+	case *ChoiceV:
+		return x.mergeValue(pv.C, x.loadTyped(pv.A, t), x.loadTyped(pv.B, t))
+	}
+	return x.load(p)
 }
